@@ -512,11 +512,12 @@ spif_socket_send(spif_socket_t self, spif_str_t data)
                 break;
             case EIO:
             case EPIPE:
+            case EINVAL:
+            default:
+                /* The descriptor is still ours; give it back before forgetting it. */
                 close(self->fd);
                 /* Drop */
             case EBADF:
-            case EINVAL:
-            default:
                 self->fd = -1;
                 SPIF_SOCKET_FLAGS_CLEAR(self, SPIF_SOCKET_FLAGS_IOSTATE);
                 return FALSE;
